@@ -27,7 +27,7 @@ func VerifBigBinary() {
 		pz, py = px, px
 	}
 	sx, sy := verifBigSnap(px), verifBigSnap(py)
-	if op == "quo" || op == "rem" || op == "quorem" {
+	if op == "quo" || op == "rem" || op == "quorem" || op == "div" || op == "mod" {
 		verifAssume(verifRefScalar("iszero", sy, -1) == 0) // documented: division by zero panics
 	}
 	var ret *BigInt
@@ -46,6 +46,21 @@ func VerifBigBinary() {
 	case "quorem":
 		verifBigAny("r", &r, mh)
 		ret, _ = pz.QuoRem(px, py, &r)
+	// pass-through wrappers: math/big's result is an uninterpreted function of the operand
+	// values; what is checked is that the wrapper hands over the right values (including the
+	// alias-aware inner handles of Mod) and stores the result back correctly
+	case "and":
+		ret = pz.And(px, py)
+	case "or":
+		ret = pz.Or(px, py)
+	case "xor":
+		ret = pz.Xor(px, py)
+	case "andnot":
+		ret = pz.AndNot(px, py)
+	case "div":
+		ret = pz.Div(px, py)
+	case "mod":
+		ret = pz.Mod(px, py)
 	}
 	tag := "C16." + op
 	verifAssert(ret == pz, tag+".returns_receiver")
@@ -95,6 +110,11 @@ func VerifBigUnary() {
 		ret = pz.Abs(px)
 	case "neg":
 		ret = pz.Neg(px)
+	case "not":
+		ret = pz.Not(px)
+	case "sqrt":
+		verifAssume(verifRefScalar("sign", sx, -1) >= 0) // documented: Sqrt panics for negative x
+		ret = pz.Sqrt(px)
 	}
 	tag := "C16." + op
 	verifAssert(ret == pz, tag+".returns_receiver")
